@@ -36,7 +36,8 @@ RULE = ("cases = (2-4 datasets created in index order with the main dataset at a
         "in one dataset (hierarchies: the same entity on several join levels); 2-3 dependencies on distinct datasets with a "
         "scripted write into a dependency dataset from inside the sink callback of an INCREMENTAL run; jobs declaring join paths "
         "in both forms at once (Dependencies in the job JSON and track_queries in the transform); write batches holding the same "
-        "main / link entity two or three times with a reference flipping away and back; a case is non-trivial when an "
+        "main / link entity two or three times with a reference flipping away and back; several track_queries chains sharing "
+        "their first hop; a case is non-trivial when an "
         "incremental run delivered entities found through a dependency or a scripted failure fired; distinct = distinct case tuples")
 TRUSTED = [
     "Store.GetRelatedAtTime (with its continuation paging at limit = batch size) is specified, not modelled: related(e) at instant t "
@@ -146,6 +147,11 @@ def witness_cases():
         mk(4, 0, [D(1, J(0, 1, True)), D(2, J(3, 2, True), J(0, 3, False))],
            [W(0, [(1, [(1, 11)], 0), (2, [], 0)]), W(1, [(11, [], 0)]), W(3, [(31, [(2, 21), (3, 2)], 0)]), W(2, [(21, [], 0)]),
             R(), W(2, [(21, [], 0)]), R(fix=True), W(3, [(31, [(2, 21), (3, 1)], 0)]), R(fix=True)], batch=2, ntrack=1),
+        # plain behaviour: two track_queries chains with the same first hop (main <-p1- link d1) and different tails (d2, d3)
+        mk(4, 0, [D(2, J(1, 2, True), J(0, 1, True)), D(3, J(1, 3, False), J(0, 1, True))],
+           [W(0, [(1, [(1, 11)], 0), (2, [(1, 12)], 0)]), W(1, [(11, [(2, 21)], 0), (12, [], 0)]), W(2, [(21, [], 0)]),
+            W(3, [(31, [(3, 12)], 0)]), R(), W(2, [(21, [], 0)]), R(fix=True), W(3, [(31, [(3, 12)], 0)]), R(fix=True)],
+           batch=2, track=True),
         # plain behaviour: one batch holds main entity 1 twice, its reference flips to 12 and back to 11; then 11 changes
         mk(2, 0, [D(1, J(0, 1, True))],
            [W(0, [(1, [(1, 11)], 0), (2, [(1, 12)], 0)]), W(1, [(11, [], 0), (12, [], 0)]), R(),
@@ -426,6 +432,28 @@ def midinc_case(rng):
     return mk(nds, 0, deps, ops, batch=rng.choice([1, 2, 3, 4]), latest=False)
 
 
+def sharedhop_case(rng):
+    """dependencies declared through track_queries whose queries share their FIRST hop (seen from the main dataset: the
+    same link dataset, predicate and direction) and continue differently: two or three 2-hop paths through link dataset 1
+    from dependency datasets 2, 3 (4); sometimes the 1-hop query itself is registered too; changes at the far ends"""
+    n = rng.choice([2, 2, 3])
+    p, inv = rng.range(1, 3), rng.chance(1, 2)
+    deps = [D(1 + k, J(1, 3 + k if k < 3 else 3, rng.chance(1, 2)), J(0, p, inv)) for k in range(1, n + 1)]
+    if rng.chance(1, 4):
+        deps.insert(rng.below(len(deps) + 1), D(1, J(0, p, inv)))
+    nds = n + 2
+    rl = roles(deps)
+    used = list(range(nds))
+    ops = [rand_write(rng, k, rl, nds) for k in used]
+    ops.append(R())
+    for _ in range(rng.range(2, 5)):
+        ops.append(rand_write(rng, rng.choice(used[2:] + used[2:] + [1]), rl, nds))
+        if rng.chance(1, 2):
+            ops.append(R(fix=True))
+    ops.append(R(fix=True))
+    return mk(nds, 0, deps, ops, batch=rng.choice([1, 2, 3]), latest=False, track=True)
+
+
 def both_case(rng):
     """a job that declares join paths in BOTH forms: Dependencies in the source JSON and track_queries in its
     transform (the latter with an intermediate dataset, i.e. an implicit dependency); changes in the datasets that
@@ -502,16 +530,19 @@ def gen(rng, tier):
         return ([rand_case(rng) for _ in range(100)] + [fanout_case(rng) for _ in range(25)]
                 + [midfull_case(rng) for _ in range(25)] + [lookback_case(rng) for _ in range(30)]
                 + [chain_case(rng) for _ in range(30)] + [midinc_case(rng) for _ in range(30)]
-                + [both_case(rng) for _ in range(20)] + [flipback_case(rng) for _ in range(30)])
+                + [both_case(rng) for _ in range(20)] + [flipback_case(rng) for _ in range(30)]
+                + [sharedhop_case(rng) for _ in range(20)])
     if tier == "search":
         return ([rand_case(rng, 14) for _ in range(150)] + [fanout_case(rng) for _ in range(40)]
                 + [midfull_case(rng) for _ in range(40)] + [lookback_case(rng) for _ in range(60)]
                 + [chain_case(rng) for _ in range(80)] + [midinc_case(rng) for _ in range(80)]
-                + [both_case(rng) for _ in range(50)] + [flipback_case(rng) for _ in range(80)])
+                + [both_case(rng) for _ in range(50)] + [flipback_case(rng) for _ in range(80)]
+                + [sharedhop_case(rng) for _ in range(50)])
     return ([rand_case(rng, 16) for _ in range(1900)] + [fanout_case(rng) for _ in range(300)]
             + [midfull_case(rng) for _ in range(300)] + [lookback_case(rng) for _ in range(400)]
             + [chain_case(rng) for _ in range(400)] + [midinc_case(rng) for _ in range(400)]
-            + [both_case(rng) for _ in range(200)] + [flipback_case(rng) for _ in range(400)])
+            + [both_case(rng) for _ in range(200)] + [flipback_case(rng) for _ in range(400)]
+            + [sharedhop_case(rng) for _ in range(200)])
 
 
 def run(binp, cases):
